@@ -51,14 +51,16 @@ def run(ctx):
     if f:
         reads = set()
         finds = 0
-        todo = ctx.closures_of(f)
+        # (the search may sit in from_word itself or in a private helper it calls)
+        helpers_ = [h for h in ctx.local_callees(f, depth=1) if str(h.raw.get("vis", "")).startswith("Restricted")]
+        todo = ctx.closures_of(f) + [c for h in helpers_ for c in ctx.closures_of(h)]
         allc = []
         while todo:
             c = todo.pop()
             allc.append(c)
             todo.extend(ctx.closures_of(c))
         pred = None
-        finds = len(ctx.find_calls_deep(f, r"Iterator(>)?::find$"))
+        finds = len(ctx.find_calls_deep(f, r"Iterator(>)?::find$", helpers=1))
         for c in allc:
             rd = field_reads(c)
             if "word" in rd:
